@@ -1666,6 +1666,13 @@ func nless(a, b string) int {
 		default:
 			return 0
 		}
+	// A number sorts before anything that is not a number: comparing "10"
+	// with "9" numerically but both with "1a" as strings is not an order
+	// ("9" < "10" < "1a" < "9").
+	case ae == nil:
+		return -1
+	case be == nil:
+		return 1
 	case a < b:
 		return -1
 	case a > b:
@@ -1688,8 +1695,9 @@ func (s sortedErrors) Less(i, j int) bool {
 	// We expect the error strings to be composed of error messages,
 	// line numbers, etc. delimited by ":".
 	const errorSplitCount = 4
-	fi := strings.SplitN(s[i].s, ":", errorSplitCount)
-	fj := strings.SplitN(s[j].s, ":", errorSplitCount)
+	si, sj := s[i].s, s[j].s
+	fi := strings.SplitN(si, ":", errorSplitCount)
+	fj := strings.SplitN(sj, ":", errorSplitCount)
 	// First, order the errors by the file name.
 	if fi[0] < fj[0] {
 		return true
@@ -1703,6 +1711,8 @@ func (s sortedErrors) Less(i, j int) bool {
 	for i := 1; i < errorSplitCount; i++ {
 		switch {
 		// Handle when an expected index doesn't exist.
+		case len(fi) == i && len(fj) == i:
+			return si < sj
 		case len(fj) == i:
 			return false
 		case len(fi) == i:
@@ -1716,7 +1726,9 @@ func (s sortedErrors) Less(i, j int) bool {
 			return false
 		}
 	}
-	return false
+	// Fields that are equal as numbers may still differ as text ("1", "01");
+	// order those by the text so that equal means identical.
+	return si < sj
 }
 
 // errorSort sorts the strings in the errors slice assuming each line starts
